@@ -132,7 +132,7 @@ func FillCol(rng *SplitMix, name string, k Kind, n, card int, decl []string) Col
 			v := rng.Intn(card + 2)
 			switch v {
 			case card:
-				c.F[i] = math.NaN()
+				c.F[i] = []float64{math.NaN(), math.NaN(), NaNS, NaNNeg}[rng.Intn(4)]
 			case card + 1:
 				c.F[i] = math.Copysign(0, -1)
 			default:
